@@ -1825,6 +1825,11 @@ where
         return Err(Error::InvalidInstances);
     }
 
+    // An empty batch is trivially valid.
+    if n == 0 {
+        return Ok(());
+    }
+
     let mut r_transcript = CircuitTranscript::init();
 
     let guards = vks
